@@ -331,15 +331,27 @@ def run(prog, tier, extra=None):
         return hit[0] if hit else None
     # Block::generate -> Transaction::generate inside a loop over the transactions, before the root is computed
     res.instance(R8)
-    tg_sites = [bb for bb, t in bg.calls() if (t.get("res") or t.get("callee") or "") == tg.path]
-    in_loop = [bb for bb in tg_sites if bg.innermost_loop_containing([bb]) is not None]
+    from ._txgen import generate_sites as _gs
+    _bg, own_sites, helper_sites = _gs(prog)
     root_sites = {bb for bb, t in bg.calls() if (call_name(t) or "").endswith("Block::generate_merkle_root")}
-    if not in_loop:
+    anchors = {s_.anchor for s_ in own_sites}
+    all_sites = list(own_sites)
+    for hbb, hb, hs in helper_sites:
+        # the helper counts when it cannot return without reaching its loop / consumer
+        if bypass(hb, {s_.anchor for s_ in hs}) is None:
+            anchors.add(hbb)
+            all_sites += hs
+    if not all_sites:
         res.add(Finding(R8, "C06.leaf-fresh|block-generate", "Block::generate no longer calls Transaction::generate for each carried transaction", bg.loc(0)))
-    elif root_sites and bypass(bg, {bg.innermost_loop_containing([x]) for x in in_loop}, root_sites) is not None:
+    elif root_sites and bypass(bg, anchors, root_sites) is not None:
         res.add(Finding(R8, "C06.leaf-fresh|root-before-leaves", "Block::generate can compute the merkle root before the transactions regenerated their hashes", bg.loc(sorted(root_sites)[0])))
+    elif not all(s_.every for s_ in all_sites):
+        bad_ = [s_ for s_ in all_sites if not s_.every][0]
+        res.add(Finding(R8, "C06.leaf-fresh|some-transactions", "Block::generate's pass over the transactions can finish with a transaction without calling Transaction::generate: that "
+                        "transaction keeps whatever hash it carried", bad_.call_body.loc(bad_.call_bb)))
     else:
-        res.sample({"rule": R8, "body": "Block::generate", "per_transaction_generate": [bg.loc(x) for x in in_loop], "verdict": "runs before the root is computed"})
+        res.sample({"rule": R8, "body": "Block::generate", "per_transaction_generate": ["%s (%s)" % (s_.call_body.loc(s_.call_bb), s_.form) for s_ in all_sites],
+                    "verdict": "every transaction, before the root is computed"})
     # Transaction::generate -> generate_hash_for_signature on every path
     res.instance(R8)
     hs = {bb for bb, t in tg.calls() if (t.get("res") or t.get("callee") or "") == hg.path}
